@@ -93,8 +93,8 @@ def period(b):
 
 def birkhoff_ratio(b, max_power=30):
     """Certified upper bound on |lambda_2|/lambda_1 of the primitive 0/1 block b: tau_B(b^m)^(1/m), minimised over the
-    powers m <= max_power for which b^m is entrywise positive (exact int64: entries <= 4^m < 2^63). None if no power
-    is positive."""
+    powers m <= max_power for which b^m is entrywise positive (the power is exact in int64: entries <= 4^m < 2^63; the
+    ratios are then taken in float64, whose rounding cannot move the bound across 0.9). None if no power is positive."""
     n = len(b)
     if n == 1:
         return 0.0
